@@ -251,9 +251,18 @@ struct Shape {
 
 /// program: [prologue] MOV.W #outer,R4; O: MOV.W #inner,R3; L: body; DEC.W R3; BNE L; DEC.W R4; BNE O; fillers; exit:
 fn build(shape: &Shape, rng_seed: u64, outer: u16, inner: u16, fillers: usize) -> Prog {
+    build_at(shape, rng_seed, outer, inner, fillers, CODE, 0xffc200)
+}
+
+/// the same program assembled at `code_base`, its system-call argument block at `data_base` and text at +0x100
+fn build_at(shape: &Shape, rng_seed: u64, outer: u16, inner: u16, fillers: usize, code_base: u32, data_base: u32) -> Prog {
     let mut rng = Rng::new(rng_seed);
     let mut p = Prog::new();
-    let mut a = Asm::new(CODE);
+    p.er[2] = code_base;
+    let mut a = Asm::new(code_base);
+    if shape.kind == "heavy" && code_base != CODE {
+        a.mov_l_imm(6, 0x410000); // base register of the long-displacement loads (a loaded program starts with ER6 = 0)
+    }
     if shape.slow {
         slow_bus(&mut a, &mut rng);
     }
@@ -289,8 +298,8 @@ fn build(shape: &Shape, rng_seed: u64, outer: u16, inner: u16, fillers: usize) -
     a.bcc(6, o);
     if let Some(text) = &shape.text {
         // write(1, text, len) through TRAPA #0
-        let argp = 0xffc200u32;
-        let buf = 0xffc300u32;
+        let argp = data_base;
+        let buf = data_base + 0x100;
         p.put(argp, &1u32.to_be_bytes());
         p.put(argp + 4, &buf.to_be_bytes());
         p.put(argp + 8, &(text.len() as u32).to_be_bytes());
@@ -312,7 +321,7 @@ fn build(shape: &Shape, rng_seed: u64, outer: u16, inner: u16, fillers: usize) -
         p.put(0xffc104, &haddr.to_be_bytes());
         p.ccr = 0x00; // interrupts enabled
     }
-    p.put(CODE, &a.b);
+    p.put(code_base, &a.b);
     p
 }
 
@@ -634,7 +643,147 @@ fn gen_control(ctx: &Ctx, emit: &mut dyn FnMut(String)) {
     }
 }
 
-pub fn generate(ctx: &Ctx, emit: &mut dyn FnMut(String)) {
+/// Minimal ELF32-BE executable: one PT_LOAD at vaddr 0 holding `image`, sections .stack / .symtab / .strtab / .shstrtab.
+pub fn elf_for_image(image: &[u8], exit_off: u32, stack: u32) -> Vec<u8> {
+    let be16 = |v: u16| v.to_be_bytes();
+    let be32 = |v: u32| v.to_be_bytes();
+    let mut f: Vec<u8> = vec![0; 52];
+    let seg_off = f.len() as u32;
+    f.extend_from_slice(image);
+    while f.len() % 4 != 0 {
+        f.push(0);
+    }
+    // symbols: null, ___exit
+    let strtab: Vec<u8> = b"\0___exit\0".to_vec();
+    let symtab_off = f.len() as u32;
+    for (name, value) in [(0u32, 0u32), (1, exit_off)] {
+        f.extend_from_slice(&be32(name));
+        f.extend_from_slice(&be32(value));
+        f.extend_from_slice(&be32(0));
+        f.extend_from_slice(&[0, 0]);
+        f.extend_from_slice(&be16(1));
+    }
+    let strtab_off = f.len() as u32;
+    f.extend_from_slice(&strtab);
+    let names = ["", ".text", ".stack", ".symtab", ".strtab", ".shstrtab"];
+    let mut shstr: Vec<u8> = vec![0];
+    let mut idx: Vec<u32> = Vec::new();
+    for n in names.iter() {
+        if n.is_empty() {
+            idx.push(0);
+        } else {
+            idx.push(shstr.len() as u32);
+            shstr.extend_from_slice(n.as_bytes());
+            shstr.push(0);
+        }
+    }
+    let shstr_off = f.len() as u32;
+    f.extend_from_slice(&shstr);
+    while f.len() % 4 != 0 {
+        f.push(0);
+    }
+    let phoff = f.len() as u32;
+    for v in [1u32, seg_off, 0, 0, image.len() as u32, image.len() as u32, 7, 4] {
+        f.extend_from_slice(&be32(v));
+    }
+    let shoff = f.len() as u32;
+    // name, type, flags, addr, offset, size, link, info, align, entsize
+    let secs: [[u32; 10]; 6] = [
+        [idx[0], 0, 0, 0, 0, 0, 0, 0, 0, 0],
+        [idx[1], 1, 6, 0, seg_off, image.len() as u32, 0, 0, 4, 0],
+        [idx[2], 8, 3, stack, 0, 0, 0, 0, 4, 0],
+        [idx[3], 2, 0, 0, symtab_off, 32, 4, 0, 4, 16],
+        [idx[4], 3, 0, 0, strtab_off, strtab.len() as u32, 0, 0, 1, 0],
+        [idx[5], 3, 0, 0, shstr_off, shstr.len() as u32, 0, 0, 1, 0],
+    ];
+    for s in secs.iter() {
+        for v in s.iter() {
+            f.extend_from_slice(&be32(*v));
+        }
+    }
+    let mut h: Vec<u8> = vec![0x7f, b'E', b'L', b'F', 1, 2, 1, 0, 0, 0, 0, 0, 0, 0, 0, 0];
+    h.extend_from_slice(&be16(2));
+    h.extend_from_slice(&be16(46));
+    h.extend_from_slice(&be32(1));
+    h.extend_from_slice(&be32(0));
+    h.extend_from_slice(&be32(phoff));
+    h.extend_from_slice(&be32(shoff));
+    h.extend_from_slice(&be32(0x00810000));
+    h.extend_from_slice(&be16(52));
+    h.extend_from_slice(&be16(32));
+    h.extend_from_slice(&be16(1));
+    h.extend_from_slice(&be16(40));
+    h.extend_from_slice(&be16(6));
+    h.extend_from_slice(&be16(5));
+    f[..52].copy_from_slice(&h);
+    f
+}
+
+/// C13, end to end: the same kinds of programs as ELF files for the release binary (`main.rs`: argument parsing,
+/// `elf::load`, `Cpu::run`, `-m` message printing)
+fn gen_binary_cases(ctx: &Ctx, emit: &mut dyn FnMut(String)) {
+    let mut rng = ctx.rng(131);
+    let quick = ctx.quick();
+    let per = |n: u64| -> u64 { ((n + ctx.nshards - 1) / ctx.nshards).max(1) };
+    let dir = ctx.out.join("elf");
+    std::fs::create_dir_all(&dir).unwrap();
+    const BASE: u32 = 0x416900;
+    const DATA_OFF: u32 = 0x1000;
+    for k in 0..per(if quick { 48 } else { 600 }) {
+        let long = k % 6 == 5;
+        let kind = *rng.pick(&["alu", "ports", "heavy", "alu"]);
+        let text = if rng.chance(2, 3) {
+            // console output: ends with a newline so that it cannot run into the next `msg:` line on stdout
+            let n = rng.below(30) as usize;
+            let mut t = utf8_sample(&mut rng, n);
+            t.retain(|b| *b != b'\r');
+            t.extend_from_slice(b"\n");
+            Some(t)
+        } else {
+            None
+        };
+        let shape = Shape { slow: kind == "heavy" || rng.chance(1, 3), body: random_body(&mut rng, kind), kind, text, handler: false };
+        let (outer, inner) = if long { (rng.range(1, 3) as u16, rng.range(20000, 60000) as u16) } else { (rng.range(1, 3) as u16, rng.range(1, 200) as u16) };
+        let p = build_at(&shape, rng.u32() as u64, outer, inner, rng.below(6) as usize, BASE, BASE + DATA_OFF);
+        // image = code at offset 0, data block at DATA_OFF
+        let mut image = vec![0u8; (DATA_OFF + 0x400) as usize];
+        for (a, v) in &p.mem {
+            if *a >= BASE && ((*a - BASE) as usize) < image.len() {
+                image[(*a - BASE) as usize] = *v;
+            }
+        }
+        let elf = elf_for_image(&image, p.exit - BASE, 0x400 + 4 * rng.below(64) as u32);
+        let path = dir.join(format!("p{}.elf", k));
+        std::fs::write(&path, &elf).unwrap();
+        let args = if rng.chance(1, 2) { String::new() } else { crate::m_elf::gen_args(&mut rng) };
+        // the initial state the binary will start from: the real loader, in-process
+        let path_s = path.display().to_string();
+        let loaded = std::panic::catch_unwind(std::panic::AssertUnwindSafe(|| {
+            let mut cpu = Cpu::new();
+            crate::elf::load(path_s.clone(), &mut cpu, args.clone());
+            cpu
+        }));
+        let cpu = match loaded {
+            Ok(c) => c,
+            Err(_) => continue,
+        };
+        let mut q = Prog::new();
+        q.er = cpu.er;
+        q.ccr = cpu.vh_ccr();
+        q.exit = cpu.exit_addr;
+        for (i, b) in cpu.bus.dram.iter().enumerate() {
+            if *b != 0 {
+                q.mem.insert(0x400000 + i as u32, *b);
+            }
+        }
+        emit(q.line(&[], &[], false, &format!("kind=bin-{}{} elf={} args={}", kind, if long { "-long" } else { "" }, path.display(), hex(args.as_bytes()))));
+    }
+}
+
+pub fn generate(ctx: &Ctx, bin: bool, emit: &mut dyn FnMut(String)) {
+    if bin {
+        return gen_binary_cases(ctx, emit);
+    }
     match ctx.prop.as_str() {
         "C13" => gen_programs(ctx, emit),
         "C18" => gen_control(ctx, emit),
